@@ -177,7 +177,7 @@ func (x *planExec) runRequest(t *Task, op *Op) *OpResult {
 		if op.Transport != nil {
 			return w.DoPipe(t, method, path, op.BodyBytes(), op.Transport, op.Inject, &x.out.Stats)
 		}
-		return w.DoHTTPct(t, method, path, op.BodyBytes(), op.Inject, op.CType)
+		return w.DoHTTPh(t, method, path, op.BodyBytes(), op.Inject, op.CType, op.Headers)
 	case "lib":
 		var h interface{}
 		if op.Resubmit != "" {
